@@ -195,6 +195,55 @@ func H_C02_media() {
 	vReach("c02-media")
 }
 
+// H_C02_multipart: a multipart/related upload (metadata document + media part) with an arbitrary
+// payload of 0..3 bytes: stored, sized, hashed and served byte for byte; a declared MD5 that
+// matches is accepted, one that does not is rejected and leaves the previous object intact.
+func H_C02_multipart() {
+	g := vNewEmuOn(vChoice("store", 0, 1))
+	vPut(g, "b", "o", []byte("previous"))
+	before := vSnap(g, "b", "o")
+	payload := vNondetBytes("payload", vChoice("payload.len", 0, 3))
+	sum := md5.Sum(payload)
+	declared := ""
+	kind := vChoice("declared-md5", 0, 2)
+	switch kind {
+	case 1:
+		declared = base64.StdEncoding.EncodeToString(sum[:])
+	case 2:
+		other := md5.Sum([]byte("something else"))
+		declared = base64.StdEncoding.EncodeToString(other[:])
+	}
+	w := vNewRecorder()
+	req := &http.Request{Form: url.Values{"uploadType": []string{"multipart"}},
+		Header: http.Header{"Content-Type": []string{"multipart/related; boundary=" + vBoundary}},
+		Body: &vBody{parts: []vPartData{
+			{decode: func(v interface{}) error {
+				o := v.(*storage.Object)
+				o.Name, o.ContentType, o.Md5Hash = "o", "text/mp", declared
+				return nil
+			}},
+			{raw: payload}}}}
+	g.handleGcsNewObject(vCtx(), dontNeedUrls, w, req, "b", emptyConds)
+	other := md5.Sum([]byte("something else"))
+	mismatch := vAnd(kind == 2, vNot(vBytesEq(sum[:], other[:])))
+	if w.code != http.StatusOK {
+		vAssert(mismatch, "multipart:rejected-only-for-an-md5-mismatch")
+		vAssert(w.code == http.StatusBadRequest, "multipart:md5-mismatch-400")
+		vAssert(vSameState(before, vSnap(g, "b", "o")), "multipart:md5-mismatch-leaves-previous-object")
+		vReach("c02-multipart-rejected")
+		return
+	}
+	vAssert(vNot(mismatch), "multipart:md5-mismatch-is-rejected")
+	meta := w.object()
+	vAssert(meta != nil && meta.Size == uint64(len(payload)) && meta.ContentType == "text/mp" && meta.Name == "o", "multipart:upload-response-metadata")
+	st := vSnap(g, "b", "o")
+	vAssert(st.exists && len(st.content) == len(payload) && vBytesEq(st.content, payload), "multipart:stored-bytes-equal-the-media-part")
+	vAssert(st.md5 == base64.StdEncoding.EncodeToString(sum[:]), "multipart:md5-of-the-media-part")
+	d := c02Get(g, "/storage/v1/b/b/o/o", "alt=media")
+	vAssert(d.code == http.StatusOK && len(d.payload()) == len(payload) && vBytesEq(d.payload(), payload), "multipart:download-returns-uploaded-bytes")
+	vReach("c02-multipart")
+}
+
 // H_C02_resumable_md5: a resumable session that declared an MD5. A final chunk whose bytes do not
 // hash to it is rejected and stays rejected when the client asks again; nothing becomes visible.
 func H_C02_resumable_md5() {
@@ -242,4 +291,5 @@ func init() {
 	vHarnesses["H_C02_range"] = H_C02_range
 	vHarnesses["H_C02_resumable"] = H_C02_resumable
 	vHarnesses["H_C02_media"] = H_C02_media
+	vHarnesses["H_C02_multipart"] = H_C02_multipart
 }
